@@ -536,6 +536,71 @@ pub fn concurrent_stress(out: &mut Out, ms: u64) {
     out.count("concurrent flood of the bus and of the command channel, then liveness probes");
 }
 
+/// C09 through the REAL daemon, in every operating mode: glonaxd on a network with the engine unit and a hydraulic unit; the
+/// engine unit reports 1500 rpm (nothing happens), then 2300 rpm: the emergency sequence must reach the bus - the engine is
+/// sent the shutdown code (0x07), which it is never sent otherwise.
+pub fn daemon_c09(out: &mut Out, _tier: &str) {
+    use std::io::Write;
+    if !std::path::Path::new(GLONAXD).exists() {
+        out.note("glonaxd binary not built: daemon-level C09 part skipped".to_string());
+        return;
+    }
+    for (n, (mode, flag)) in [("normal", false), ("pilot-restrict", false), ("autonomous", false), ("normal", true)].iter().enumerate() {
+        let dir = std::path::PathBuf::from(format!("/verif/.cache/e2e/c09-{}-{}", std::process::id(), n));
+        let _ = std::fs::remove_dir_all(&dir);
+        std::fs::create_dir_all(dir.join("bus")).unwrap();
+        let text = format!("mode = \"{}\"\n[unix_listener]\npath = \"{}\"\n[machine]\nid = \"00000000-0000-0000-0000-000000000000\"\ntype = \"Excavator\"\nmodel = \"LE240\"\nserial = \"0.0\"\n[[j1939]]\ninterface = \"vce0\"\naddress = 0x27\ndriver = [{{ da = 0x0, sa = 0x11, vendor = \"volvo\", product = \"d7e\" }}, {{ da = 0x4A, vendor = \"laixer\", product = \"hcu\" }}]\n[j1939.name]\nmanufacturer_code = 0\nfunction_instance = 2\necu_instance = 1\nfunction = 255\nvehicle_system = 5\nvehicle_system_instance = 5\nindustry_group = 3\n", mode, dir.join("glonax.sock").display());
+        let cfile = dir.join("glonax.conf");
+        std::fs::File::create(&cfile).unwrap().write_all(text.as_bytes()).unwrap();
+        let mut bus = Bus::attach_at(&dir.join("bus"), "vce0");
+        bus.impatient = true;
+        let mut cmd = std::process::Command::new(GLONAXD);
+        cmd.arg("--config").arg(&cfile).arg("--quiet");
+        if *flag {
+            cmd.arg("--pilot-only");
+        }
+        let mut child = cmd.env("GLONAX_VERIF_BUS", dir.join("bus")).env_remove("GLONAX_VERIF_BUS_LOOPBACK").stdout(std::process::Stdio::null()).stderr(std::process::Stdio::null()).spawn().expect("spawn glonaxd");
+        // up = the network has announced itself
+        let t0 = Instant::now();
+        let mut up = false;
+        while t0.elapsed() < Duration::from_secs(6) && !up {
+            up = bus.sync().iter().any(|r| (u32::from_le_bytes([r[0], r[1], r[2], r[3]]) >> 8) & 0xFF00 == 0xEE00);
+            std::thread::sleep(Duration::from_millis(5));
+        }
+        let stop_code_seen = |b: &Bus, rpm: u16, wait_ms: u64| -> bool {
+            let raw = (rpm * 8).to_le_bytes();
+            let f = Bus::raw(0x0CF00400 | 0x8000_0000, 8, &[0xF0, 0x7D, 0x80, raw[0], raw[1], 0xFF, 0xFF, 0xFF]);
+            let _ = b.sync();
+            let t = Instant::now();
+            let mut seen = false;
+            while t.elapsed() < Duration::from_millis(wait_ms) && !seen {
+                b.inject(&f);
+                std::thread::sleep(Duration::from_millis(20));
+                seen = b.sync().iter().any(|r| u32::from_le_bytes([r[0], r[1], r[2], r[3]]) & 0x1FFF_FFFF == 0x0CFF_0211 && r[9] == 0x07);
+            }
+            seen
+        };
+        let quiet = !stop_code_seen(&bus, 1500, 300);
+        let emergency = stop_code_seen(&bus, 2300, 2000);
+        unsafe {
+            libc::kill(child.id() as i32, libc::SIGTERM);
+        }
+        let t1 = Instant::now();
+        while t1.elapsed() < Duration::from_secs(6) {
+            if let Ok(Some(_)) = child.try_wait() {
+                break;
+            }
+            std::thread::sleep(Duration::from_millis(2));
+        }
+        let _ = child.kill();
+        let _ = child.wait();
+        drop(bus);
+        let _ = std::fs::remove_dir_all(&dir);
+        out.case(&format!("daemon9 {}{}", mode, if *flag { "+pilot-only" } else { "" }), &format!("up={} quiet_at_1500={} shutdown_code_at_2300={}", up as u8, quiet as u8, emergency as u8), true);
+        out.count("real glonaxd: overspeed reported on the bus, per operating mode");
+    }
+}
+
 /// C20 through the REAL daemon: glonaxd (built with glonax/verif) started on a generated configuration with 1..3 networks
 /// whose driver lists have 0..3 entries (known and unknown pairs); per network: the address claim it announces at
 /// start-up, its answer to a SoftwareIdentification request and to an AddressClaimed request addressed to it.
